@@ -6,8 +6,9 @@ import c02
 
 CONFIGS = ['prod']
 EXPLANATION = (
-    'SEM (abstract interpretation of the MIR, no code runs): the node\'s membership watcher, found by role, is interpreted over a scripted history of six '
-    'snapshots (joins, a leave, an address change, an unchanged snapshot, everybody leaving, a rejoin under another address) and each published delta must be '
+    'SEM (abstract interpretation of the MIR, no code runs): the node\'s membership watcher, found by role, is interpreted over a scripted history of nine '
+    'snapshots (joins, a leave, an address change, an unchanged snapshot, everybody leaving, a rejoin under another address, a node replaced by a new id on the same address, '
+    'another join, a node leaving while another moves onto its address) and each published delta must be '
     'exactly joined = current - previous, left = previous - current as (id, address) pairs, departed nodes with the address they had; each membership consumer '
     'of the store (the coroutine owning the receiving end of a channel whose message carries the delta) is interpreted over seven rounds of queued deltas and '
     'the peers reachable from the arguments of the asynchronous workers it calls must be exactly the set the history prescribes. These summaries subsume M1 and '
